@@ -18,11 +18,11 @@ CA = pm_types.ContextAssociation
 def _versions(pm):
     """{('d'|'s'|'c', handle): version counter}"""
     out = {}
-    for d in pm.descriptions.objects:
+    for d in k.descrs(pm):
         out[('d', d.Handle)] = d.DescriptorVersion
-    for s in pm.states.objects:
+    for s in k.single_states(pm):
         out[('s', s.DescriptorHandle)] = s.StateVersion
-    for s in pm.context_states.objects:
+    for s in k.ctx_states(pm):
         out[('c', s.Handle)] = s.StateVersion
     return out
 
@@ -35,11 +35,11 @@ def _content(pm):
     def strip(c):
         return tuple(x for x in k.canon_container(c) if not (isinstance(x, tuple) and len(x) == 2 and x[0] in _VERSION_PROPS))
     out = {}
-    for d in pm.descriptions.objects:
+    for d in k.descrs(pm):
         out[('d', d.Handle)] = strip(d)
-    for s in pm.states.objects:
+    for s in k.single_states(pm):
         out[('s', s.DescriptorHandle)] = strip(s)
-    for s in pm.context_states.objects:
+    for s in k.ctx_states(pm):
         out[('c', s.Handle)] = strip(s)
     return out
 
